@@ -411,14 +411,19 @@ func c03Run(r *kit.Run, idx int64, c c03Case, rng *rand.Rand, quiet bool) (after
 				return false
 			}
 		}) {
-			stuck = true
-			if cs, q := kit.Quiesce(c14Watchdog); q {
-				r.Violation("C03/"+c.Construct+"/no-termination", idx, c, fmt.Sprintf("the worker group never finished; at quiescence: %v", cs.Describe()), nil)
+			cs, q := kit.Quiesce(c14Watchdog)
+			if isClosed(done) {
+				// finished late (slow machine): not a verdict
 			} else {
-				r.Inconclusive("C03 case did not finish and is not quiescent")
+				stuck = true
+				if q {
+					r.Violation("C03/"+c.Construct+"/no-termination", idx, c, fmt.Sprintf("the worker group never finished; at quiescence: %v", cs.Describe()), nil)
+				} else {
+					r.Inconclusive("C03 case did not finish and is not quiescent")
+				}
+				cancel()
+				<-done
 			}
-			cancel()
-			<-done
 		}
 	})
 	if stuck {
